@@ -1,6 +1,7 @@
 package core
 
 import (
+	"strings"
 	"fmt"
 	"runtime"
 	"sync"
@@ -43,6 +44,7 @@ type Sched struct {
 	pctPrio   map[int]int
 	pctChange map[int]bool
 	pctLow    int
+	consecAdv int // time advances in a row
 	// OnRelease, if set, runs on the scheduler goroutine just before a task is released (e.g. to
 	// tell the simulated OS on whose behalf the following operations run).
 	OnRelease func(t *Task)
@@ -243,6 +245,7 @@ func (s *Sched) Run() string {
 			continue
 		}
 		t := cands[d]
+		s.consecAdv = 0
 		if s.last != nil && t != s.last {
 			s.Switches++
 		}
@@ -309,8 +312,10 @@ func (s *Sched) decide(cands, waiting []*Task, nTime int) int {
 			best, bestWaiting = p, true
 		}
 	}
-	if bestWaiting || bestIdx < 0 {
-		// the highest-priority task sleeps on the clock: time has to pass for it to go on
+	if (bestWaiting && (s.consecAdv < 6 || bestIdx < 0)) || bestIdx < 0 {
+		// the highest-priority task sleeps on the clock: time has to pass for it to go on. (It may
+		// also be blocked on a lower-priority task rather than on the clock: after a few advances
+		// in a row the best runnable task goes on instead.)
 		return s.ch.record(len(cands) + s.ch.rng.Intn(nTime))
 	}
 	return s.ch.record(bestIdx)
@@ -318,6 +323,7 @@ func (s *Sched) decide(cands, waiting []*Task, nTime int) int {
 
 func (s *Sched) advance(step int) {
 	s.TimeAdv++
+	s.consecAdv++
 	s.sig.Add("time", fmt.Sprint(step))
 	if s.KeepTrace {
 		s.Trace = append(s.Trace, fmt.Sprintf("advance clock %v", timeSteps[step]))
@@ -330,3 +336,21 @@ func (s *Sched) Hash() string { return s.sig.Sum() }
 
 // Decisions returns the decisions taken so far (for the replay file).
 func (s *Sched) Decisions() []int { return append([]int(nil), s.ch.Taken...) }
+
+// States renders every task's scheduling state (for reports of stuck runs).
+func (s *Sched) States() string {
+	s.mu.Lock()
+	defer s.mu.Unlock()
+	var out []string
+	for _, t := range s.tasks {
+		st := "running-or-blocked"
+		switch {
+		case t.finished:
+			st = "finished"
+		case t.parked:
+			st = "parked@" + t.label
+		}
+		out = append(out, fmt.Sprintf("%s:%s", t.Name, st))
+	}
+	return strings.Join(out, " ")
+}
